@@ -749,6 +749,16 @@ func (t *transport) Write(_ context.Context, conn net.Conn, bufs net.Buffers) er
 	case err := <-req.done:
 		return err
 	case <-gs.genDone:
+		// Teardown released the wait, but the engine may have finished this very transaction at the
+		// same moment (req.done is buffered cap 1 and Go's select picks at random among ready
+		// cases): prefer the engine's verdict when it is already there, so that a block the peer
+		// has acknowledged is not reported as ErrConnClosed and left out of DataMsgSendCount.
+		select {
+		case err := <-req.done:
+			return err
+		default:
+		}
+
 		return hsms.ErrConnClosed
 	}
 }
